@@ -38,8 +38,17 @@ func zzPinEmptyHash(t *zzT) {
 // zzRefVerifyOne: LIP-0039 verification of a single query, written as one fold from the leaf to the
 // root. bitmap bit j (0 = first significant bit) belongs to the node at depth h-j.
 func zzRefVerifyOne(key []byte, q *QueryProof, sibs []codec.Hex, root []byte) bool {
+	hash, ok := zzRefFoldOne(key, q, sibs, true)
+	return ok && bytes.Equal(hash, root)
+}
+
+// zzRefFoldOne: the root the single query folds to, and whether the proof is structurally acceptable.
+func zzRefFoldOne(key []byte, q *QueryProof, sibs []codec.Hex, checkLen bool) ([]byte, bool) {
+	if checkLen && len(q.Key) != len(key) {
+		return nil, false // a proof entry names a key of the tree: keyLength bytes (else key||value can be re-split)
+	}
 	if len(q.Bitmap) > 0 && q.Bitmap[0] == 0 {
-		return false // bitmap with a leading zero byte is not canonical
+		return nil, false // bitmap with a leading zero byte is not canonical
 	}
 	var bm []bool
 	for _, b := range q.Bitmap {
@@ -53,13 +62,20 @@ func zzRefVerifyOne(key []byte, q *QueryProof, sibs []codec.Hex, root []byte) bo
 	h := len(bm)
 	if !bytes.Equal(key, q.Key) {
 		// non-inclusion through another leaf or an empty node: it must lie on the path of the key
+		maxBits := 8 * len(key)
+		if 8*len(q.Key) < maxBits {
+			maxBits = 8 * len(q.Key)
+		}
 		cpl := 0
-		for cpl < 8 && zzKeyBit(key, cpl) == zzKeyBit(q.Key, cpl) {
+		for cpl < maxBits && zzKeyBit(key, cpl) == zzKeyBit(q.Key, cpl) {
 			cpl++
 		}
 		if h > cpl {
-			return false
+			return nil, false
 		}
+	}
+	if h > 8*len(q.Key) {
+		return nil, false // one bitmap bit per layer on the path of the proof key
 	}
 	hash := zzRefEmpty()
 	if len(q.Value) != 0 {
@@ -70,13 +86,13 @@ func zzRefVerifyOne(key []byte, q *QueryProof, sibs []codec.Hex, root []byte) bo
 		sib := zzRefEmpty()
 		if bm[j] {
 			if next == len(sibs) {
-				return false
+				return nil, false
 			}
 			sib = sibs[next]
 			next++
 		}
 		if len(sib) == 0 {
-			return false
+			return nil, false
 		}
 		if zzKeyBit(q.Key, h-j-1) {
 			hash = zzRefSMTBranch(sib, hash)
@@ -84,22 +100,32 @@ func zzRefVerifyOne(key []byte, q *QueryProof, sibs []codec.Hex, root []byte) bo
 			hash = zzRefSMTBranch(hash, sib)
 		}
 	}
-	return bytes.Equal(hash, root)
+	return hash, true
 }
 
-// C10.a (one query): Verify ≡ the reference fold for an arbitrary single-query proof: query key and
-// proof key 1 byte each (equal or not), value 0..1 byte, bitmap 0..1 byte below 2^H, 0..2 sibling
+// C10.a (one query): Verify ≡ the reference fold for an arbitrary single-query proof: query key 1 byte,
+// proof key 0..2 bytes (a proof key of another length than keyLength is never acceptable; equal or not), value 0..1 byte, bitmap 0..1 byte below 2^H, 0..2 sibling
 // hashes of 0..1 bytes... (contents symbolic), arbitrary root.
 //
 //zz:opt loop=40 require=accepted-or-rejected
-//zz:quick H=4
-//zz:thorough H=7
+//zz:quick H=4 KLO=0 KHI=2
+//zz:thorough H=7 KLO=0 KHI=2
 func zzH_C10_verify_one_ref(t *zzT) {
 	zzPinEmptyHash(t)
 	key := t.Bytes("queryKey", 1)
-	q := zzQuery(t, 0, 1, 1, 1)
+	q := zzQuery(t, 0, t.Param("KLO", 1), t.Param("KHI", 1), 1)
 	sibs := zzSiblings(t, 2, 0)
+	// the root is either the value the proof folds to (computed with the real hash natively, so that a
+	// counterexample replays) or an arbitrary other string
 	root := t.Bytes("root", 32)
+	folded, foldOK := zzRefFoldOne(key, q.copy(), sibs, false)
+	if foldOK && len(folded) == 32 {
+		if t.Bool("root.isFold") {
+			root = folded
+		} else {
+			t.Assume(!bytes.Equal(root, folded))
+		}
+	}
 	// the reference runs on its own copy: Verify must not be able to influence it
 	want := zzRefVerifyOne(key, q.copy(), sibs, root)
 	got, err := Verify([][]byte{key}, &Proof{SiblingHashes: sibs, Queries: []*QueryProof{q}}, root, 1)
@@ -194,11 +220,11 @@ func zzClaimTrue(t *zzT, q *QueryProof, k1, v1, k2, v2 []byte) bool {
 // added query is true of the map.
 //
 //zz:opt loop=40 require=accepted,rejected
-//zz:quick H=3 S=1 SYMKEYS=0
-//zz:thorough H=3 S=1 SYMKEYS=1
+//zz:quick H=3 S=2 SYMKEYS=0
+//zz:thorough H=3 S=2 SYMKEYS=1
 func zzH_C10_sound_extra_claim(t *zzT) {
 	zzPinEmptyHash(t)
-	k1, k2 := []byte{0x80}, []byte{0xc0}
+	k1, k2 := []byte{0xa0}, []byte{0xc0} // 1010…, 1100…: there are absent keys below k1 under its leaf position
 	if t.Param("SYMKEYS", 0) == 1 {
 		k1, k2 = t.Bytes("k1", 1), t.Bytes("k2", 1)
 		t.Assume(k1[0] != k2[0])
